@@ -258,7 +258,13 @@ class _SetIteration:
             if not isinstance(to_iterate, _Base):
                 # We know _Base (Set, Bucket, Tree, TreeSet) will all iterate
                 # in sorted order. Other than that, we have no guarantee.
-                to_iterate = sorted(self.to_iterate)
+                # None is a legal key (the smallest one), but sorted()
+                # cannot order it relative to other objects.
+                to_iterate = list(self.to_iterate)
+                nones = [k for k in to_iterate if k is None]
+                to_iterate = nones[:1] + sorted(
+                    k for k in to_iterate if k is not None
+                )
                 # The merge algorithms need strictly increasing keys,
                 # like the BTrees types deliver them: drop duplicates.
                 self.to_iterate = to_iterate = [
